@@ -483,13 +483,15 @@ func main() {
 	if b, err := ioutil.ReadFile(stamp); err == nil && string(b) == key {
 		_, err1 := os.Stat(filepath.Join(*out, "Facts.lean"))
 		_, err2 := os.Stat(filepath.Join(*out, "Arith.lean"))
-		if err1 == nil && err2 == nil {
+		_, err3 := os.Stat(filepath.Join(*out, "Funcs.lean"))
+		if err1 == nil && err2 == nil && err3 == nil {
 			fmt.Println("facts: up to date")
 			return
 		}
 	}
 	os.Remove(filepath.Join(*out, "Facts.lean"))
 	os.Remove(filepath.Join(*out, "Arith.lean"))
+	os.Remove(filepath.Join(*out, "Funcs.lean"))
 	os.Remove(stamp)
 	cfg := &packages.Config{Mode: packages.NeedName | packages.NeedFiles | packages.NeedSyntax | packages.NeedTypes | packages.NeedTypesInfo | packages.NeedImports | packages.NeedDeps,
 		Dir: *repo, Env: append(os.Environ(), "GOFLAGS=-mod=mod", "GOPROXY=off", "GOSUMDB=off", "GOTOOLCHAIN=local"), Tests: false}
@@ -505,6 +507,8 @@ func main() {
 	var hookAims, sessionRule, mapRanges, envUses, volatileSets, fatalSites, signerRows, checkRuns, checkStateDB, pinned, validateRows, routeRows, validateGuards rows
 	funcDecls := map[types.Object]*ast.FuncDecl{}
 	funcPkg := map[types.Object]*packages.Package{}
+	declByName := map[string]*ast.FuncDecl{}
+	pkgByName := map[string]*packages.Package{}
 	nerr := 0
 	for _, pkg := range pkgs {
 		for _, e := range pkg.Errors {
@@ -529,6 +533,8 @@ func main() {
 					fn = strings.TrimPrefix(render(pkg.Fset, fd.Recv.List[0].Type), "*") + "." + fn
 				}
 				qfn := short + "." + fn
+				declByName[qfn] = fd
+				pkgByName[qfn] = pkg
 				for ti := range arithTargets {
 					if arithTargets[ti].fn == qfn {
 						arithTargets[ti].translate(fd)
@@ -991,6 +997,10 @@ func main() {
 	sb.WriteString("end OLP.Gen\n")
 	os.MkdirAll(*out, 0755)
 	if err := ioutil.WriteFile(filepath.Join(*out, "Arith.lean"), []byte(arithLean()), 0644); err != nil {
+		fmt.Fprintln(os.Stderr, err)
+		os.Exit(1)
+	}
+	if err := ioutil.WriteFile(filepath.Join(*out, "Funcs.lean"), []byte(funcsLean(declByName, pkgByName)), 0644); err != nil {
 		fmt.Fprintln(os.Stderr, err)
 		os.Exit(1)
 	}
